@@ -270,7 +270,7 @@ func main() {
 	ch := make(chan wr, *jobs)
 	for i := 0; i < *jobs; i++ {
 		sp := &props.Spec{Mode: "explore", Prop: prop, Tier: *tier, Seed: uint64(*seedF), First: uint64(i), Stride: uint64(*jobs),
-			DeadlineMS: deadline.UnixMilli(), MaxRuns: *maxRuns, OutDir: scratch, ID: i, StuckS: 30}
+			DeadlineMS: deadline.UnixMilli(), MaxRuns: *maxRuns, OutDir: scratch, ID: i, StuckS: 60}
 		go func() {
 			r, c, o := runWorker(bin, sp, time.Duration(bud)*time.Second+5*time.Minute)
 			ch <- wr{r, c, o, sp.ID}
